@@ -2230,3 +2230,66 @@ Section HistoryThm.
       eapply Forall_forall in Fm; [exact Fm|exact Hw].
   Qed.
 End HistoryThm.
+
+(* ====================================================================== *)
+(* length prefixes.  readChunk compares the decoded uvarint as an UNSIGNED
+   64-bit value with chunkSizeLimit, and only then with the remaining bytes;
+   the model compares in N.  For EVERY value the uvarint may decode to
+   (the whole range up to 2^64-1, in particular >= 2^63 where a signed
+   conversion would turn negative) a length above the limit or above the
+   remaining bytes is an error — of readChunk and of every decoder that
+   reaches the field. *)
+Lemma read_chunk_rejects_large r n r1 :
+  read_uvarint r = Ok (n, r1) -> chunkSizeLimit < n \/ N.of_nat (length r1) < n ->
+  read_chunk r = Err.
+Proof.
+  intros U H. unfold read_chunk. rewrite U. cbn [bind].
+  destruct (guard (length r - length r1 =? length (put_uvarint n))%nat) as [[]| |] eqn:G; cbn [bind];
+    try reflexivity; [|destruct (length r - length r1 =? length (put_uvarint n))%nat; discriminate].
+  destruct (chunkSizeLimit <? n) eqn:E1; [reflexivity|]. apply N.ltb_ge in E1.
+  destruct H as [H|H]; [lia|].
+  replace (N.of_nat (length r1) <? n) with true by (symmetry; apply N.ltb_lt; exact H). reflexivity.
+Qed.
+
+Theorem reject_length_prefix dec c sid8 rest n r1 :
+  length sid8 = 8%nat -> read_uvarint rest = Ok (n, r1) ->
+  chunkSizeLimit < n \/ N.of_nat (length r1) < n ->
+  DecodeRound1 c (magicRound1 ++ sid8 ++ rest) = Err /\
+  DecodeRound2 dec c (magicRound2 ++ sid8 ++ rest) = Err /\
+  DecodeGarblerSession c (magicGarblerSession ++ sid8 ++ rest) = Err /\
+  DecodeEvaluatorSession c (magicEvalSession ++ sid8 ++ rest) = Err.
+Proof.
+  intros L U H. pose proof (read_chunk_rejects_large rest n r1 U H) as RC.
+  repeat split.
+  - unfold DecodeRound1. rewrite read_full_app by reflexivity. cbn [bind]. rewrite bytes_eqb_refl. cbn [guard bind].
+    rewrite read_full_app by exact L. cbn [bind]. unfold decodeOTSetup. rewrite RC. reflexivity.
+  - unfold DecodeRound2. rewrite read_full_app by reflexivity. cbn [bind]. rewrite bytes_eqb_refl. cbn [guard bind].
+    rewrite read_full_app by exact L. cbn [bind]. rewrite RC. reflexivity.
+  - unfold DecodeGarblerSession. rewrite read_full_app by reflexivity. cbn [bind]. rewrite bytes_eqb_refl. cbn [guard bind].
+    rewrite read_full_app by exact L. cbn [bind]. rewrite RC. reflexivity.
+  - unfold DecodeEvaluatorSession. rewrite read_full_app by reflexivity. cbn [bind]. rewrite bytes_eqb_refl. cbn [guard bind].
+    rewrite read_full_app by exact L. cbn [bind]. rewrite RC. reflexivity.
+Qed.
+
+(* the nested curve-name prefix inside a session chunk *)
+Theorem reject_nested_length_prefix c sid chunk n r1 :
+  read_uvarint chunk = Ok (n, r1) -> chunkSizeLimit < n \/ N.of_nat (length r1) < n ->
+  decodeCOSenderSetup c sid chunk = Err /\ decodeChoiceBundle c sid chunk = Err.
+Proof.
+  intros U H. pose proof (read_chunk_rejects_large chunk n r1 U H) as RC.
+  split; [unfold decodeCOSenderSetup|unfold decodeChoiceBundle]; rewrite RC; reflexivity.
+Qed.
+
+(* the boundary values the harness puts into every length-prefixed field,
+   in their minimal encodings, in front of 40 payload bytes: each is an error
+   of readChunk; 2^63 is the ten-byte uvarint 80 80 80 80 80 80 80 80 80 01 *)
+Definition prefix_boundary_values : list N :=
+  [41; 1048576; 1048577; 2 ^ 31 - 1; 2 ^ 31; 2 ^ 32 - 1; 2 ^ 32; 2 ^ 62; 2 ^ 63 - 1; 2 ^ 63; 2 ^ 63 + 1; 2 ^ 64 - 1].
+Example prefix_boundary_values_rejected :
+  forallb (fun v => match read_chunk (put_uvarint v ++ repeat 7 40) with Err => true | _ => false end)
+          prefix_boundary_values = true /\
+  put_uvarint (2 ^ 63) = [128; 128; 128; 128; 128; 128; 128; 128; 128; 1] /\
+  read_uvarint (put_uvarint (2 ^ 64 - 1) ++ [9]) = Ok (2 ^ 64 - 1, [9]) /\
+  read_uvarint ([255; 255; 255; 255; 255; 255; 255; 255; 255; 2] ++ [9]) = Err /\
+  read_uvarint (repeat 128 10 ++ [0]) = Err.
+Proof. vm_compute. repeat split; reflexivity. Qed.
